@@ -482,3 +482,12 @@ def c02_array_end(viol, inp, param):
     child = json.loads(viol["detail"])[1]
     lines = _input_bytes(inp).split(b"\n")
     return child[4] == 0 and child[3] > child[0] and child[3] - 1 < len(lines) and lines[child[3] - 1].rstrip(b" \t\r").endswith(b"]")
+
+
+# ---- C35: a board nested two or more levels deep keeps a link to itself -----------------------------
+@classifier("c35_self_link_in_board_nested_two_levels")
+def c35_self_link(viol, inp, param):
+    # both aspects are only raised when the specification's Target(cur, base, toks) is the board itself; detail[0] = that board
+    if viol["aspect"] not in ("link-to-the-board-itself-kept", "link-to-the-board-itself-present-in-the-output"):
+        return False
+    return len(json.loads(viol["detail"])[0]) >= 4
